@@ -261,13 +261,16 @@ func ruleKeys(c *Ctx) {
 				}
 			}
 			// the insert executes whenever the append does, and the scan precedes the insert
-			if !pd.postDominates(ins.ins.Block(), ap.ins.Block()) && ins.ins.Block() != ap.ins.Block() {
+			// (the insert may just as well come first: then it dominates the append)
+			if !pd.postDominates(ins.ins.Block(), ap.ins.Block()) && ins.ins.Block() != ap.ins.Block() && !ins.ins.Block().Dominates(ap.ins.Block()) {
 				l.add("R-KEYS", "v5", key, b.posOf(ap.ins), Violated, "the append to keys can happen without the insert into obj (a member would be emitted as null although it was never set)", true)
 				continue
 			}
 			if info.cmpBlock != nil {
 				h := loopHeaderOf(info.cmpBlock)
-				if h != nil && !h.Dominates(ins.ins.Block()) {
+				// insert first, scan afterwards: fine as long as the scan cannot be skipped
+				insertFirst := h != nil && ins.ins.Block().Dominates(h) && pd.postDominates(h, ins.ins.Block())
+				if h != nil && !h.Dominates(ins.ins.Block()) && !insertFirst {
 					l.add("R-KEYS", "v5", key, b.posOf(ins.ins), Violated, "the insert into obj can be reached without passing the membership scan", true)
 					continue
 				}
